@@ -42,12 +42,13 @@ import sqlglot  # noqa: E402
 from sqlglot import exp  # noqa: E402
 
 MODULES = ["Model.Tree", "Proofs.Tree", "Proofs.TreeFrame", "Proofs.TreeCopy", "Proofs.TreeCopyShape", "Proofs.TreeWalk",
-           "Generated.C09", "Properties.C09"]
+           "Proofs.TreeBuilders", "Generated.C09", "Properties.C09"]
 _P = "SqlglotModel.Properties.C09."
 THEOREMS = [_P + n for n in (
     "set_frame", "append_frame", "replace_frame", "hash_touches_only_caches", "eq_touches_only_caches",
     "frame_set", "frame_append", "frame_replace", "frame_pop", "copy_equal_disjoint", "copy_original_untouched",
     "transform_copy_pure", "expand_result_disjoint", "expand_nothing_to_do_still_copies", "expand_returns_through_the_copy",
+    "builder_copy_both_pure", "where_and_cte_assemblies_in_region", "builders_thread_copy",
     "generated_copy_defaults_ok", "copy_false_sites_allowed",
 )]
 
@@ -1448,6 +1449,48 @@ def _default_of(fn, arg):
     return None
 
 
+_HELPERS = ("_apply_builder", "_apply_child_list_builder", "_apply_list_builder", "_apply_conjunction_builder",
+            "_apply_set_operation", "_apply_cte_builder")
+
+
+def builder_tables():
+    """(rows, bad, users): the copy decisions inside each `_apply_*` helper, the helper call sites that do not pass
+    `copy=copy`, and which public method uses which helper"""
+    import glob
+    rows, bad, users = [], [], []
+    watched = ("maybe_copy", "maybe_parse", "and_", "or_", "_apply_child_list_builder", "_combine")
+    for f in sorted(glob.glob(os.path.join(REPO, "sqlglot", "expressions", "*.py"))):
+        try:
+            tree = _ast.parse(open(f, encoding="utf-8").read())
+        except (OSError, SyntaxError):
+            continue
+        for fn in tree.body:
+            if isinstance(fn, _ast.FunctionDef) and fn.name in _HELPERS:
+                calls = []
+                for n in _ast.walk(fn):
+                    if isinstance(n, _ast.Call):
+                        name = n.func.id if isinstance(n.func, _ast.Name) else n.func.attr if isinstance(n.func, _ast.Attribute) else None
+                        if name in watched:
+                            cp = [_ast.unparse(kw.value) for kw in n.keywords if kw.arg == "copy"]
+                            pos = _ast.unparse(n.args[1]) if name == "maybe_copy" and len(n.args) > 1 else None
+                            first = _ast.unparse(n.args[0]) if n.args else next(
+                                (_ast.unparse(kw.value) for kw in n.keywords if kw.arg in ("sql_or_expression", "instance")), "*")
+                            calls.append(f"{name}({first};copy={cp[0] if cp else pos if pos else '-'})")
+                rows.append(f"{fn.name}: " + ", ".join(sorted(calls)))
+        for cls in [None] + [c for c in _ast.walk(tree) if isinstance(c, _ast.ClassDef)]:
+            for fn in (tree.body if cls is None else cls.body):
+                if not isinstance(fn, _ast.FunctionDef):
+                    continue
+                for n in _ast.walk(fn):
+                    if isinstance(n, _ast.Call) and isinstance(n.func, _ast.Name) and n.func.id in _HELPERS:
+                        cp = [_ast.unparse(kw.value) for kw in n.keywords if kw.arg == "copy"]
+                        u = f"{os.path.basename(f)}:{cls.name + '.' if cls else ''}{fn.name}->{n.func.id}(copy={cp[0] if cp else '-'})"
+                        users.append(u)
+                        if cp != ["copy"]:
+                            bad.append(u)
+    return sorted(rows), sorted(bad), sorted(users)
+
+
 def translate(chk: Check) -> str:
     def parse(rel):
         return _ast.parse(open(os.path.join(REPO, *rel.split("/")), encoding="utf-8").read())
@@ -1507,6 +1550,12 @@ def translate(chk: Check) -> str:
     lines.append("/-- every call of `.sql(…)` / `.generate(…)` inside sqlglot that does not pass the default `copy=True` "
                  "(file:function:callee:value) -/")
     lines.append("def copyFalseSites : List String := " + c08._lean_list(c08._lean_str(x) for x in sites))
+    rows, bad, users = builder_tables()
+    chk.cov["builder_users"] = users
+    lines.append("/-- per `_apply_*` helper: its maybe_copy / maybe_parse / and_ / delegated calls with their `copy` argument -/")
+    lines.append("def builderCopyDecisions : List String := " + c08._lean_list(c08._lean_str(x) for x in rows))
+    lines.append("/-- calls of a helper (from a public builder method) that do not pass `copy=copy` on -/")
+    lines.append("def builderCallSitesNotThreadingCopy : List String := " + c08._lean_list(c08._lean_str(x) for x in bad))
     lines.append("/-- the `return` statements of `exp.expand` itself (not of the nested `_expand`) -/")
     lines.append("def expandReturnSites : List String := " + c08._lean_list(c08._lean_str(x) for x in ret_sites))
     lines.append("/-- `lineage` calls `maybe_parse(sql, copy=copy, …)` -/")
